@@ -256,10 +256,17 @@ def cross(case, s, fwd, rev, role, labels, resume=False):
         return good(nt=False, labels=labels + ["openssl-config-refused"])
     conn = TLSConnection(link.sock(role))
     DET.reseed("C07x", s.id, v, case["key"], role, resume)
+    widen = resume and case.get("resume_widen") and s.tls13 and \
+        s.prf == "sha256" and role == "c"
     if role == "c":
         o = tls_opts("c", case, s)
         if resume:
             o["session"] = sess
+        if widen:
+            # the client's preferences changed between the connections:
+            # OpenSSL resumes under another suite of the same hash
+            o["settings"].cipherNames = ["chacha20-poly1305", "aes128gcm"]
+            labels.append("resume-with-wider-suite-list")
         gen = sc.client_gen(conn, o)
     else:
         gen = sc.server_gen(conn, tls_opts("s", case, s))
@@ -324,7 +331,7 @@ def cross(case, s, fwd, rev, role, labels, resume=False):
         return bad("interop-cipher-differs:" + where,
                    "openssl %r tlslite %04x" % (oc, conn.session.cipherSuite),
                    labels=labels)
-    if conn.session.cipherSuite != s.id:
+    if conn.session.cipherSuite != s.id and not widen:
         return bad("interop-wrong-suite:" + where, "", labels=labels)
     ea = expected_alpn(case)
     oa = oend.obj.selected_alpn_protocol()
@@ -488,6 +495,8 @@ def cases(draw, tier):
         c["alpn_s"] = draw(st.lists(st.sampled_from(names), min_size=1,
                                     max_size=3, unique=True))
     c["resume"] = draw(st.booleans())
+    if s.tls13 and c["resume"]:
+        c["resume_widen"] = draw(st.booleans())
     if not s.tls13 and draw(st.booleans()):
         c["tls_max"] = draw(st.sampled_from([[3, 3], [3, 4]]))
     if draw(st.integers(0, 2)) == 0:
@@ -580,3 +589,8 @@ def explicit(tier, seed):
                        "key": key, "sizes": [100, 3000],
                        "client_auth": False, "resume": True,
                        "ossl_default": True}
+                if role == "c":
+                    yield {"role": role, "suite": sid, "ver": list(v),
+                           "key": key, "sizes": [100, 3000],
+                           "client_auth": False, "resume": True,
+                           "ossl_default": True, "resume_widen": True}
